@@ -582,3 +582,180 @@ def config_oracle(cfg, oracle):
         if msg:
             return f"SamplerConfig accepts periodic={per!r} reflective={refl!r} (n_dim={d}); on u={pt!r}: {msg}"
     return None
+
+
+# ------------------------------------------------------------------ call SEQUENCES: the two functions are functions of their arguments
+# (seeded change C16f: a module-level memo keyed by the IDENTITY of the index containers went stale when a container was
+#  changed in place between calls).  Two index containers A, B (list or int64 ndarray) live through a whole sequence, are
+#  mutated in place between calls (item assignment, append / pop, slice assignment, clear), swap roles, are passed with a
+#  different n_dim, alternate with None and with fresh copies.  Every single call is judged on its own against the contents the
+#  containers have AT THAT CALL: (a) model-free, by the exact fold / bounds reference; (b) bit for bit against the Float model.
+def seq_gen(rng, rand_double):
+    d = rng.randint(2, 5)
+    kinds = {k: rng.choice(["list", "list", "array"]) for k in "AB"}
+    init = {k: sorted(rng.sample(range(d), rng.randint(1, min(3, d)))) for k in "AB"}
+    length = dict((k, len(v)) for k, v in init.items())
+    steps = []
+    for _ in range(rng.randint(3, 8)):
+        ops = []
+        for k in "AB":
+            r = rng.random()
+            if r < 0.45 and length[k] > 0:
+                ops.append(["set", k, rng.randrange(length[k]), rng.randrange(d)])
+            elif r < 0.6:
+                ops.append(["fill", k, [rng.randrange(d) for _ in range(length[k])]])      # slice assignment c[:] = ...
+            elif r < 0.7 and kinds[k] == "list":
+                ops.append(["append", k, rng.randrange(d)])
+                length[k] += 1
+            elif r < 0.77 and kinds[k] == "list" and length[k] > 0:
+                ops.append(["pop", k])
+                length[k] -= 1
+            elif r < 0.8 and kinds[k] == "list":
+                ops.append(["clear", k])
+                length[k] = 0
+        slots = rng.choice([("A", "B"), ("A", "B"), ("A", "B"), ("B", "A"), ("A", None), (None, "A"), ("B", None), (None, "B"),
+                            ("A", "A"), ("copyA", "B"), ("A", "copyB"), (None, None)])
+        dd = d + (1 if rng.random() < 0.2 else 0)                  # the same objects with another n_dim
+        nd = 1 if rng.random() < 0.6 else 2
+        rows = [[rng.uniform(-6, 6) if rng.random() < 0.7 else rand_double(rng) for _ in range(dd)]
+                for _ in range(1 if nd == 1 else rng.randint(1, 3))]
+        steps.append({"ops": ops, "per": slots[0], "refl": slots[1], "fn": rng.choice(["apply", "apply", "check", "both"]),
+                      "nd": nd, "u": [[f2hex(x) for x in r] for r in rows]})
+    return {"d": d, "kinds": kinds, "init": init, "steps": steps}
+
+
+def seq_run(seq):
+    """execute the sequence on the REAL functions; returns per step (per_snapshot, refl_snapshot, a, v or None, cb or None)"""
+    from tempest.mcmc import apply_boundary_conditions, check_bounds
+    box = {k: (list(seq["init"][k]) if seq["kinds"][k] == "list" else np.array(seq["init"][k], dtype=np.int64)) for k in "AB"}
+    out = []
+    for st in seq["steps"]:
+        for op in st["ops"]:
+            c = box[op[1]]
+            if op[0] == "set":
+                c[op[2]] = op[3]
+            elif op[0] == "fill":
+                c[:] = op[2]
+            elif op[0] == "append":
+                c.append(op[2])
+            elif op[0] == "pop":
+                c.pop()
+            elif op[0] == "clear":
+                del c[:]
+
+        def slot(s):
+            if s is None:
+                return None
+            if s.startswith("copy"):
+                c = box[s[4:]]
+                return list(c) if isinstance(c, list) else c.copy()
+            return box[s]
+        per, refl = slot(st["per"]), slot(st["refl"])
+        p_snap = None if per is None else [int(i) for i in per]
+        r_snap = None if refl is None else [int(i) for i in refl]
+        rows = [[hex2f(h) for h in r] for r in st["u"]]
+        a = np.array(rows[0] if st["nd"] == 1 else rows, dtype=float)
+        v = cb = None
+        with warnings.catch_warnings():
+            warnings.simplefilter("ignore")
+            if st["fn"] in ("apply", "both"):
+                v = apply_boundary_conditions(a.copy(), per, refl)
+            if st["fn"] in ("check", "both"):
+                cb = check_bounds(a.copy(), per, refl)
+        out.append((p_snap, r_snap, a, v, cb))
+    return out
+
+
+def seq_judge(step_no, p_snap, r_snap, a, v, cb):
+    """one call judged on its own (model-free): exact fold of the designated coordinates, untouched bits elsewhere,
+    check_bounds = all remaining coordinates in [0,1] — with the index contents the containers had at this call"""
+    from . import c16
+    a2 = np.atleast_2d(a)
+    per_s, refl_s = set(p_snap or []), set(r_snap or [])
+    strict = [i for i in range(a2.shape[1]) if i not in per_s and i not in refl_s]
+    where = f"call {step_no} (periodic={p_snap}, reflective={r_snap}, u={a.tolist()!r})"
+    if v is not None:
+        if np.shape(v) != np.shape(a):
+            return f"{where}: result shape {np.shape(v)}"
+        v2 = np.atleast_2d(v)
+        for r in range(a2.shape[0]):
+            want_cb = all(0.0 <= a2[r][i] <= 1.0 for i in strict)
+            msg = c16._oracle_core(p_snap, r_snap, a2[r].tolist(), v2[r].tolist(), want_cb, v2[r].tolist(), Fraction(1, 2 ** 52), f2hex)
+            if msg:
+                return f"{where}: {msg}"
+    if cb is not None:
+        try:
+            flags = np.broadcast_to(np.asarray(cb), (a2.shape[0],))
+        except ValueError:
+            return f"{where}: check_bounds result of shape {np.shape(cb)}"
+        for r in range(a2.shape[0]):
+            want_cb = all(0.0 <= a2[r][i] <= 1.0 for i in strict)
+            if bool(flags[r]) != want_cb:
+                return (f"{where}: check_bounds={bool(flags[r])} but the remaining coordinates {strict} "
+                        f"{'are' if want_cb else 'are not'} all in [0,1]")
+    return None
+
+
+def seq_oracle(seq):
+    try:
+        res = seq_run(seq)
+    except Exception as e:  # noqa
+        return f"raised {type(e).__name__}: {e}"
+    for k, (p, r, a, v, cb) in enumerate(res):
+        msg = seq_judge(k, p, r, a, v, cb)
+        if msg:
+            return msg + " — after the same container objects were used with other contents in earlier calls of the sequence"
+    return None
+
+
+def sequence_suite(tier, gens):
+    n = {"quick": 400, "thorough": 8000}[tier]
+    drv = common.Driver()
+    rng = common.rng_for("C16.seq")
+    c = Corr("sequence-F", "call sequences re-using and mutating the same index containers; every call judged on its own: "
+                           "exact property oracle (model-free) + bit-exact Float model")
+    lines, metas = [], []
+    for _ in range(n):
+        seq = seq_gen(rng, gens["rand_double"])
+        try:
+            res = seq_run(seq)
+        except Exception as ex:  # noqa
+            c.case(("raised", str(seq)), True)
+            c.disagree(input=str(seq)[:300], impl=f"raised {type(ex).__name__}: {ex}", model="runs", seq=seq)
+            continue
+        c.case((str(seq),), True)
+        c.count("calls", len(res))
+        for st in seq["steps"]:
+            for op in st["ops"]:
+                c.count("op_" + op[0])
+            c.count(f"slots_{st['per']}_{st['refl']}")
+        c.count("kinds_" + seq["kinds"]["A"] + "_" + seq["kinds"]["B"])
+        bad = None
+        for k, ((p, r, a, v, cb), st) in enumerate(zip(res, seq["steps"])):
+            if a.shape[-1] != seq["d"]:
+                c.count("same_objects_other_n_dim")
+            msg = seq_judge(k, p, r, a, v, cb)
+            if msg and bad is None:
+                bad = msg
+            rows = np.atleast_2d(a).tolist()
+            lines.append(f"c16py.F per={enc_opt(p)} refl={enc_opt(r)} nd={st['nd']} ncols={a.shape[-1]} u={enc_rows(rows, f2hex)}")
+            metas.append((seq, k, v, cb, a.shape[-1]))
+        if bad:
+            c.disagree(input=str(seq)[:300], impl=bad, model="property oracle, call by call", seq=seq)
+    res = drv.batch(lines)
+    flagged = set()
+    for (seq, k, v, cb, ncols), line, ans in zip(metas, lines, res):
+        toks = ans.split(" ")
+        ok = len(toks) == 3
+        if ok and v is not None:
+            vv = np.asarray(v)
+            impl_arr = "1:" + flist(vv.tolist(), f2hex) if vv.ndim == 1 else f"2:{ncols}:" + enc_rows(vv.tolist(), f2hex)
+            ok = impl_arr == toks[0]
+        if ok and cb is not None:
+            ok = enc_res(cb) == toks[1]
+        if not ok and id(seq) not in flagged:
+            flagged.add(id(seq))
+            c.disagree(input=f"call {k} of a sequence: {line}", impl=f"{None if v is None else np.asarray(v).tolist()} {None if cb is None else enc_res(cb)}",
+                       model=ans, seq=seq)
+        c.sample({"op": line, "call": k, "model": ans})
+    return c
